@@ -42,17 +42,30 @@ def main():
     a = ap.parse_args()
     readme = open(os.path.join(a.src, "README.md")).read() if os.path.exists(os.path.join(a.src, "README.md")) else ""
     demos = [f for f in os.listdir(a.src) if f.endswith(".go")]
-    demo_path = a.demo_path
-    if not demo_path:
-        m = re.search(r"`((?:pkg|cmd)/[^`\s]*?(?:_test|main)\.go)`", readme)
-        demo_path = m.group(1) if m else None
+    # where the demonstration goes: a directory of the tree (all .go files of <src> are copied there)
+    demo_dir = a.demo_path
+    alltext = readme + "\n" + "\n".join(open(os.path.join(a.src, f), errors="replace").read()[:1500] for f in demos)
+    if not demo_dir:
+        cands = re.findall(r"((?:pkg|cmd)/[\w./-]+?)(?:/[\w.-]+\.go|/)[`\s)\]]", alltext)
+        cands = [c.rstrip("/") for c in cands]
+        pref = [c for c in cands if re.search(r"zz|demo", c)]
+        demo_dir = (pref or cands or [None])[0]
+    if demo_dir and demo_dir.endswith(".go"):
+        demo_dir = os.path.dirname(demo_dir)
     demo_cmd = a.demo_cmd
-    if not demo_cmd:
-        m = re.search(r"`(go test [^`]*-run[^`]*)`", readme) or re.search(r"`(go (?:test|run) [^`]*)`", readme)
-        demo_cmd = m.group(1) if m else None
-    if not demo_path or not demo_cmd or not demos:
-        print("cannot determine demo path/command; pass --demo-path/--demo-cmd", demo_path, demo_cmd, demos)
+    if not demo_cmd and demo_dir:
+        tags = "verif"
+        if re.search(r"-tags[ =]demo|go:build demo", alltext):
+            tags = "demo,verif"
+        demo_cmd = "go test -tags %s -vet=off -count=1 ./%s/" % (tags, demo_dir)
+        # restrict to this mutation's tests when the directory is a real katib package with its own tests
+        m = re.search(r"-run[ =]'?\"?([\w|^$()]+)", readme)
+        if m and not re.search(r"zz|demo", demo_dir):
+            demo_cmd += " -run '%s'" % m.group(1)
+    if not demo_dir or not demo_cmd or not demos:
+        print("cannot determine demo dir/command; pass --demo-path/--demo-cmd", demo_dir, demo_cmd, demos)
         return 2
+    demo_path = demo_dir
     wt = "/tmp/wt_eval_%s" % a.id.replace("/", "_")
     sh("git -C /repo worktree remove --force %s" % wt)
     rc, out = sh("git -C /repo worktree add -q %s HEAD" % wt)
@@ -67,12 +80,27 @@ def main():
             open(base_file, "w").write(test_summary(wt))
         baseline = open(base_file).read()
         # demo on the unchanged tree
-        target = os.path.join(wt, demo_path)
-        os.makedirs(os.path.dirname(target), exist_ok=True)
-        shutil.copy(os.path.join(a.src, demos[0] if len(demos) == 1 else os.path.basename(demo_path)), target)
+        tdir = os.path.join(wt, demo_path)
+        created_dir = not os.path.isdir(tdir)
+
+        def put_demo():
+            os.makedirs(tdir, exist_ok=True)
+            for f in demos:
+                shutil.copy(os.path.join(a.src, f), os.path.join(tdir, f))
+
+        def drop_demo():
+            for f in demos:
+                try:
+                    os.remove(os.path.join(tdir, f))
+                except OSError:
+                    pass
+            if created_dir:
+                shutil.rmtree(tdir, ignore_errors=True)
+
+        put_demo()
         rc0, out0 = sh(demo_cmd, cwd=wt)
         meta["ran"].append(dict(step="demo on unchanged tree", cmd=demo_cmd, exit=rc0, tail=out0[-600:]))
-        os.remove(target)
+        drop_demo()
         # patch
         rc, out = sh("git apply %s" % os.path.join(a.src, "patch.diff"), cwd=wt)
         meta["ran"].append(dict(step="git apply patch.diff", exit=rc, tail=out[-300:]))
@@ -84,12 +112,10 @@ def main():
         same = cur == baseline
         meta["ran"].append(dict(step="existing tests (go test -vet=off -count=1 ./pkg/... ./cmd/...) same as unchanged tree", same=same,
                                 diff=[l for l in cur.splitlines() if l not in baseline.splitlines()][:10]))
-        shutil.copy(os.path.join(a.src, demos[0] if len(demos) == 1 else os.path.basename(demo_path)), target)
+        put_demo()
         rc1, out1 = sh(demo_cmd, cwd=wt)
         meta["ran"].append(dict(step="demo with the change", cmd=demo_cmd, exit=rc1, tail=out1[-900:]))
-        os.remove(target)
-        if os.path.isdir(os.path.dirname(target)) and not os.listdir(os.path.dirname(target)):
-            os.rmdir(os.path.dirname(target))
+        drop_demo()
         meta["confirmed"] = bool(rc0 == 0 and rcb == 0 and same and rc1 != 0)
         # the registered checks
         results = {}
